@@ -51,9 +51,9 @@ import (
 	"github.com/nuts-foundation/go-did/did"
 	"github.com/nuts-foundation/nuts-node/audit"
 	"github.com/nuts-foundation/nuts-node/crypto/dpop"
-	"github.com/nuts-foundation/nuts-node/crypto/storage/fs"
+	"github.com/nuts-foundation/nuts-node/core"
 	"github.com/nuts-foundation/nuts-node/crypto/storage/spi"
-	"github.com/nuts-foundation/nuts-node/storage/orm"
+	"github.com/nuts-foundation/nuts-node/storage"
 	"github.com/nuts-foundation/nuts-node/vdr/didjwk"
 	"github.com/sirupsen/logrus"
 	"gorm.io/gorm"
@@ -74,6 +74,7 @@ type c03Env struct {
 	keyDir  string
 	decoy   string
 	auditCap *audit.CapturedLog
+	engine  storage.Engine
 	db      *gorm.DB
 	client  *Crypto
 	pubs    []string // key registry: PKIX DER (hex) of every public key the store returned, index = K<n>
@@ -210,6 +211,42 @@ func (e *c03Env) harvestCanaries() {
 	}
 }
 
+// New / Resolve hand a crypto.PublicKey (= any) to callers that publish it: it must not be a private key
+func c03PubFlag(pk crypto.PublicKey) string {
+	switch pk.(type) {
+	case nil, *ecdsa.PublicKey, *rsa.PublicKey, ed25519.PublicKey:
+		return ""
+	}
+	return fmt.Sprintf(" RETURNED-NON-PUBLIC-KEY:%T", pk)
+}
+
+// a signed artefact must not carry secret JWK members in its header, and a jwk header must be the signing key
+func c03TokenFlags(tok string) string {
+	msg, err := jws.Parse([]byte(tok))
+	if err != nil || len(msg.Signatures()) != 1 {
+		return ""
+	}
+	ph := msg.Signatures()[0].ProtectedHeaders()
+	jk := ph.JWK()
+	if jk == nil {
+		return ""
+	}
+	res := ""
+	jb, _ := json.Marshal(jk)
+	var mm map[string]interface{}
+	_ = json.Unmarshal(jb, &mm)
+	for _, k := range []string{"d", "k", "p", "q", "dp", "dq", "qi"} {
+		if _, ok := mm[k]; ok {
+			res = " JWK-HEADER-HAS-SECRET-MEMBER:" + k
+			break
+		}
+	}
+	if _, err := jws.Verify([]byte(tok), jws.WithKey(ph.Algorithm(), jk)); err != nil {
+		res += " JWK-HEADER-IS-NOT-THE-SIGNING-KEY"
+	}
+	return res
+}
+
 func c03Num(v interface{}) float64 {
 	switch x := v.(type) {
 	case float64:
@@ -248,15 +285,21 @@ func c03Err(err error) string {
 
 func (e *c03Env) reset() {
 	e.seq++
-	e.keyDir = filepath.Join(e.root, fmt.Sprintf("seq%d", e.seq), "keys")
-	be, err := fs.NewFileSystemBackend(e.keyDir)
-	if err != nil {
-		e.t.Fatal(err)
-	}
+	// the REAL wiring: NewCryptoInstance(storage engine) + Configure(server config) — whatever backend and wrapper
+	// crypto.go installs for storage type "fs" (odd sequences) or the non-strict default "" (even sequences)
+	datadir := filepath.Join(e.root, fmt.Sprintf("seq%d", e.seq))
+	e.keyDir = filepath.Join(datadir, "crypto")
 	if err := e.db.Exec("delete from key_reference").Error; err != nil {
 		e.t.Fatal(err)
 	}
-	e.client = NewTestCryptoInstance(e.db, spi.NewValidatedKIDBackendWrapper(be, spi.KidPattern))
+	c := NewCryptoInstance(e.engine)
+	if e.seq%2 == 1 {
+		c.config.Storage = "fs"
+	}
+	if err := c.Configure(core.ServerConfig{Datadir: datadir}); err != nil {
+		e.t.Fatal(err)
+	}
+	e.client = c
 	e.pubs, e.pubKeys = nil, nil
 	// a decoy key file OUTSIDE the key directory (its sibling): the key name "../escape" would address it
 	e.decoy = filepath.Join(filepath.Dir(e.keyDir), "escape_private.pem")
@@ -349,9 +392,9 @@ func (e *c03Env) exec(op map[string]interface{}) (line string) {
 			k = e.pubIndex(pub)
 		}
 		if err != nil {
-			return fmt.Sprintf("new %s key=K%d", c03Err(err), k)
+			return fmt.Sprintf("new %s key=K%d", c03Err(err), k) + c03PubFlag(pub)
 		}
-		res := fmt.Sprintf("new ok kid=%s name=%s ver=%s key=K%d", ref.KID, ref.KeyName, ref.Version, k)
+		res := fmt.Sprintf("new ok kid=%s name=%s ver=%s key=K%d", ref.KID, ref.KeyName, ref.Version, k) + c03PubFlag(pub)
 		if ref.KeyName != name {
 			res += " KEYNAME-IS-NOT-THE-NEW-FILE"
 		}
@@ -406,7 +449,7 @@ func (e *c03Env) exec(op map[string]interface{}) (line string) {
 			return "sign " + str("how") + " " + c03Err(err)
 		}
 		e.sinkToken(tok)
-		res := "sign " + str("how") + " ok verifies=" + e.verifiers(tok)
+		res := "sign " + str("how") + " ok verifies=" + e.verifiers(tok) + c03TokenFlags(tok)
 		if msg, err := jws.Parse([]byte(tok)); err == nil && len(msg.Signatures()) == 1 {
 			if _, err := jws.Verify([]byte(tok), jws.WithKey(msg.Signatures()[0].ProtectedHeaders().Algorithm(), &e.pkgKey.PublicKey)); err == nil {
 				res += " SIGNED-WITH-DECOY-KEY-OUTSIDE-KEY-DIR"
@@ -424,7 +467,7 @@ func (e *c03Env) exec(op map[string]interface{}) (line string) {
 		if err != nil {
 			return "resolve " + c03Err(err)
 		}
-		return fmt.Sprintf("resolve ok key=K%d", e.pubIndex(pk))
+		return fmt.Sprintf("resolve ok key=K%d", e.pubIndex(pk)) + c03PubFlag(pk)
 	case "exists":
 		ok, err := e.client.Exists(ctx, str("kid"))
 		e.sink("returns", err)
@@ -545,6 +588,9 @@ func (e *c03Env) execHeaders(op map[string]interface{}) string {
 			headers[n], _ = m["v"].(string)
 		case "strlist":
 			headers[n] = []string{"custom"}
+			if n == "crit" && m["v"] == "b64" {
+				headers[n] = []string{"b64"}
+			}
 		case "jwk":
 			for i := range e.jwks {
 				if e.jwks[i].id == m["id"] {
@@ -557,6 +603,8 @@ func (e *c03Env) execHeaders(op map[string]interface{}) string {
 				headers[n] = 5.0
 			case "bool":
 				headers[n] = true
+			case "boolfalse":
+				headers[n] = false
 			case "map":
 				headers[n] = map[string]interface{}{"kty": "EC", "crv": "P-256", "x": "AA", "y": "AA", "d": "AA"}
 			default:
@@ -797,7 +845,11 @@ func TestVerifC03(t *testing.T) {
 	_ = os.RemoveAll(root)
 	defer os.RemoveAll(root)
 	e := &c03Env{t: t, root: root, sinks: map[string]*bytes.Buffer{}, seenKeys: map[string]bool{}}
-	e.db = orm.NewTestDatabase(t)
+	e.engine = storage.NewTestStorageEngine(t)
+	if err := e.engine.Start(); err != nil {
+		t.Fatal(err)
+	}
+	e.db = e.engine.GetSQLDatabase()
 	e.jwks = c03MakeJWKs(t)
 	e.pkgKey, _ = ecdsa.GenerateKey(elliptic.P256(), crand.Reader)
 	memKey, _ := jwk.FromRaw(e.pkgKey)
@@ -875,7 +927,8 @@ func TestVerifC03(t *testing.T) {
 	}
 
 	// ---- (b) key store state machine
-	kids := []string{"did:a#1", "did:b#1", "did:web:x%3A80:iam:u#0", "legacy key", "k3", "../kid", ""}
+	kids := []string{"did:a#1", "did:b#1", "did:web:x%3A80:iam:u#0", "legacy key", "k3", "../kid", "",
+		"did:a#10", "DID:A#1", "k", "did:_#1", "did:%", "did:a#1 "}
 	badNames := []string{"missing-name", "../escape", "..", ".", "a/b", "%2e%2e", "/etc/passwd", "..%2Fx", "x\x00y", ""}
 	nSeq, nOps := 36, 70
 	if thorough {
@@ -995,6 +1048,20 @@ func TestVerifC03(t *testing.T) {
 				emit(map[string]interface{}{"op": o, "via": via, "found": true, "kid": kid, "headers": hs, "detached": false})
 				emit(map[string]interface{}{"op": o, "via": via, "found": true, "kid": kid, "headers": hs[:1], "detached": true})
 			}
+		}
+	}
+	// the two in-tree callers' header shapes: JSON-LD proofs (vcr/signature: {b64:false, crit:[b64]}, detached) and
+	// DAG transactions (network/dag/signing.go: cty, crit, custom headers, jwk = public key, or kid)
+	for _, via := range []string{"pkg", "store", "memory"} {
+		kid := map[string]string{"pkg": "caller-kid", "store": "did:hdr#1", "memory": "mem#1"}[via]
+		ld := []interface{}{map[string]interface{}{"n": "b64", "k": "other", "ty": "boolfalse"}, map[string]interface{}{"n": "crit", "k": "strlist", "v": "b64"}}
+		emit(map[string]interface{}{"op": "signjws", "via": via, "found": true, "kid": kid, "headers": ld, "detached": true})
+		for _, j := range e.jwks {
+			dag := []interface{}{map[string]interface{}{"n": "cty", "k": "str", "v": "application/did+json"}, map[string]interface{}{"n": "crit", "k": "strlist"},
+				map[string]interface{}{"n": "sigt", "k": "other", "ty": "float64"}, map[string]interface{}{"n": "prevs", "k": "other", "ty": "list"},
+				map[string]interface{}{"n": "jwk", "k": "jwk", "raw": j.raw, "id": j.id}}
+			emit(map[string]interface{}{"op": "signjws", "via": via, "found": true, "kid": kid, "headers": dag, "detached": false})
+			emit(map[string]interface{}{"op": "signjws", "via": via, "found": true, "kid": kid, "headers": append(append([]interface{}{}, ld...), dag[4]), "detached": true})
 		}
 	}
 	for i := 0; i < nHdr; i++ {
